@@ -1,6 +1,8 @@
 package consensusctl
 
 import (
+	"strings"
+	"sync"
 	"context"
 	"crypto/sha256"
 	"fmt"
@@ -9,11 +11,13 @@ import (
 	"time"
 
 	eth2api "github.com/attestantio/go-eth2-client/api"
+	eth2v1 "github.com/attestantio/go-eth2-client/api/v1"
 	k1 "github.com/decred/dcrd/dcrec/secp256k1/v4"
 	libp2pcrypto "github.com/libp2p/go-libp2p/core/crypto"
 	mocknet "github.com/libp2p/go-libp2p/p2p/net/mock"
 	ma "github.com/multiformats/go-multiaddr"
 
+	"github.com/obolnetwork/charon/app/log"
 	"github.com/obolnetwork/charon/core"
 	"github.com/obolnetwork/charon/core/consensus"
 	cqbft "github.com/obolnetwork/charon/core/consensus/qbft"
@@ -42,12 +46,101 @@ type stubDL struct{ c chan core.Duty }
 func (d stubDL) Add(core.Duty) core.DeadlineStatus { return core.DeadlineScheduled }
 func (d stubDL) C() <-chan core.Duty              { return d.c }
 
+
+type gateSink struct {
+	hold    chan struct{}
+	reached chan struct{}
+}
+
+func (g *gateSink) Write(b []byte) (int, error) {
+	if strings.Contains(string(b), "QBFT consensus instance starting") && g.hold != nil {
+		close(g.reached)
+		<-g.hold
+	}
+	return len(b), nil
+}
+func (g *gateSink) Sync() error { return nil }
+
+type dlStub struct {
+	mu      sync.Mutex
+	expired bool
+	c       chan core.Duty
+}
+
+func (d *dlStub) Add(core.Duty) core.DeadlineStatus {
+	d.mu.Lock()
+	defer d.mu.Unlock()
+	if d.expired {
+		return core.DeadlineExpired
+	}
+	return core.DeadlineScheduled
+}
+func (d *dlStub) C() <-chan core.Duty { return d.c }
+
+// The instance is deleted (duty deadline) between the starter's two getInstanceIO lookups: Propose waits for ever.
+func TestReproRelookup(t *testing.T) {
+	defer func() { fmt.Println("recovered:", recover()) }()
+	synctest.Test(t, func(t *testing.T) {
+		ctx, cancel := context.WithCancel(context.Background())
+		mn := mocknet.New()
+		k := detKey("x")
+		id, _ := p2p.PeerIDFromKey(k.PubKey())
+		peers := []p2p.Peer{{ID: id, Index: 0, Name: p2p.PeerName(id)}}
+		a, _ := ma.NewMultiaddr("/ip4/10.0.0.1/tcp/4242")
+		h, err := mn.AddPeer((*libp2pcrypto.Secp256k1PrivateKey)(k), a)
+		if err != nil {
+			t.Fatal(err)
+		}
+		synctest.Wait()
+		sink := &gateSink{hold: make(chan struct{}), reached: make(chan struct{})}
+		log.InitJSONForT(t, sink)
+		bc := bclient{spec: map[string]any{"SECONDS_PER_SLOT": 12 * time.Second, "SLOTS_PER_EPOCH": uint64(32)}}
+		gen := time.Now()
+		bc.GenesisFunc = func(context.Context, *eth2api.GenesisOpts) (*eth2v1.Genesis, error) {
+			return &eth2v1.Genesis{GenesisTime: gen}, nil
+		}
+		dl := &dlStub{c: make(chan core.Duty)}
+		c, err := cqbft.NewConsensus(ctx, bc, h, new(p2p.Sender), peers, k, dl, func(core.Duty) bool { return true },
+			func(i *pbv1.SniffedConsensusInstance) { fmt.Println("sniff", len(i.GetMsgs())) }, false)
+		if err != nil {
+			t.Fatal(err)
+		}
+		c.Start(ctx)
+		duty := core.NewAttesterDuty(5)
+		pctx, pcancel := context.WithCancel(ctx)
+		qctx, qcancel := context.WithCancel(ctx)
+		go func() { fmt.Println("participate ->", c.Participate(pctx, duty)) }()
+		<-sink.reached // the starter is between MaybeStart and runInstance's own lookup
+		set := core.UnsignedDataSet{testutil.RandomCorePubKey(t): testutil.RandomCoreAttestationData(t)}
+		returned := make(chan error, 1)
+		go func() { err := c.Propose(qctx, duty, set); fmt.Println("propose ->", err); returned <- err }()
+		synctest.Wait()
+		dl.mu.Lock()
+		dl.expired = true
+		dl.mu.Unlock()
+		dl.c <- duty // the duty's deadline: Start's loop deletes the instance
+		synctest.Wait()
+		close(sink.hold)
+		synctest.Wait()
+		pcancel()
+		qcancel()
+		time.Sleep(time.Hour)
+		synctest.Wait()
+		select {
+		case <-returned:
+			fmt.Println("Propose returned")
+		default:
+			fmt.Println("Propose is STILL BLOCKED an hour after its context was cancelled and the instance ended")
+		}
+		cancel()
+		_ = mn.Close()
+		time.Sleep(10 * time.Second)
+	})
+}
+
 func TestProbe(t *testing.T) {
 	synctest.Test(t, func(t *testing.T) {
 		ctx, cancel := context.WithCancel(context.Background())
-		bm, err := beaconmock.New(ctx)
-		_ = bm
-		_ = err
 		mn := mocknet.New()
 		k := detKey("x")
 		id, _ := p2p.PeerIDFromKey(k.PubKey())
@@ -59,9 +152,12 @@ func TestProbe(t *testing.T) {
 		}
 		synctest.Wait()
 		dbg := consensus.NewDebugger()
-		bc := bclient{Mock: beaconmock.Mock{}, spec: map[string]any{"SECONDS_PER_SLOT": 12 * time.Second, "SLOTS_PER_EPOCH": uint64(32)}}
-		bc.GenesisFunc = nil
-		c, err := cqbft.NewConsensus(ctx, bm, h, new(p2p.Sender), peers, k, stubDL{make(chan core.Duty)}, func(core.Duty) bool { return true },
+		bc := bclient{spec: map[string]any{"SECONDS_PER_SLOT": 12 * time.Second, "SLOTS_PER_EPOCH": uint64(32)}}
+		gen := time.Now()
+		bc.GenesisFunc = func(context.Context, *eth2api.GenesisOpts) (*eth2v1.Genesis, error) {
+			return &eth2v1.Genesis{GenesisTime: gen}, nil
+		}
+		c, err := cqbft.NewConsensus(ctx, bc, h, new(p2p.Sender), peers, k, stubDL{make(chan core.Duty)}, func(core.Duty) bool { return true },
 			func(i *pbv1.SniffedConsensusInstance) { fmt.Println("sniff", len(i.GetMsgs())); dbg.AddInstance(i) }, false)
 		if err != nil {
 			t.Fatal(err)
